@@ -73,6 +73,168 @@ fn after(c: &mut usize, m: usize) -> bool {
 const TOO_BIG: usize = 1 << 24;
 
 // ------------------------------------------------------------------------------------------------
+// a transparent guard around the crate's iterators
+
+/// Forwards EVERY overridable method to the wrapped iterator's own method (so std's adaptors and the
+/// terminal calls still reach the crate's `nth`, `nth_back`, `count`, `last`, `fold`, `len` …) and counts
+/// the delivered items: no program over a range of n points can be handed more than n of them, so an
+/// iterator that keeps delivering (a cursor that stopped moving) ends in a panic — the outcome of the op
+/// in progress — instead of an unbounded `collect`.
+pub struct Meter<I> {
+  it: I,
+  left: std::rc::Rc<std::cell::Cell<usize>>,
+}
+fn tick(left: &std::cell::Cell<usize>) {
+  let l = left.get();
+  if l == 0 {
+    panic!("the iterator delivered more items than the range has points");
+  }
+  left.set(l - 1);
+}
+impl<I> Meter<I> {
+  pub fn new(it: I, points: usize) -> Self {
+    Meter { it, left: std::rc::Rc::new(std::cell::Cell::new(points + 16)) }
+  }
+}
+impl<I: Iterator> Iterator for Meter<I> {
+  type Item = I::Item;
+  fn next(&mut self) -> Option<I::Item> {
+    let v = self.it.next();
+    if v.is_some() {
+      tick(&self.left);
+    }
+    v
+  }
+  fn size_hint(&self) -> (usize, Option<usize>) {
+    self.it.size_hint()
+  }
+  fn count(self) -> usize {
+    self.it.count()
+  }
+  fn last(self) -> Option<I::Item> {
+    self.it.last()
+  }
+  fn nth(&mut self, n: usize) -> Option<I::Item> {
+    let v = self.it.nth(n);
+    if v.is_some() {
+      tick(&self.left);
+    }
+    v
+  }
+  fn fold<B, F: FnMut(B, I::Item) -> B>(self, init: B, mut f: F) -> B {
+    let left = self.left;
+    self.it.fold(init, move |b, x| {
+      tick(&left);
+      f(b, x)
+    })
+  }
+  fn for_each<F: FnMut(I::Item)>(self, mut f: F) {
+    let left = self.left;
+    self.it.for_each(move |x| {
+      tick(&left);
+      f(x)
+    })
+  }
+  fn find<P: FnMut(&I::Item) -> bool>(&mut self, mut p: P) -> Option<I::Item> {
+    let left = self.left.clone();
+    self.it.find(move |x| {
+      tick(&left);
+      p(x)
+    })
+  }
+  fn position<P: FnMut(I::Item) -> bool>(&mut self, mut p: P) -> Option<usize> {
+    let left = self.left.clone();
+    self.it.position(move |x| {
+      tick(&left);
+      p(x)
+    })
+  }
+  fn any<P: FnMut(I::Item) -> bool>(&mut self, mut p: P) -> bool {
+    let left = self.left.clone();
+    self.it.any(move |x| {
+      tick(&left);
+      p(x)
+    })
+  }
+  fn max_by<F: FnMut(&I::Item, &I::Item) -> std::cmp::Ordering>(self, mut f: F) -> Option<I::Item> {
+    let left = self.left;
+    self.it.max_by(move |a, b| {
+      tick(&left);
+      f(a, b)
+    })
+  }
+  fn min_by<F: FnMut(&I::Item, &I::Item) -> std::cmp::Ordering>(self, mut f: F) -> Option<I::Item> {
+    let left = self.left;
+    self.it.min_by(move |a, b| {
+      tick(&left);
+      f(a, b)
+    })
+  }
+}
+impl<I: DoubleEndedIterator> DoubleEndedIterator for Meter<I> {
+  fn next_back(&mut self) -> Option<I::Item> {
+    let v = self.it.next_back();
+    if v.is_some() {
+      tick(&self.left);
+    }
+    v
+  }
+  fn nth_back(&mut self, n: usize) -> Option<I::Item> {
+    let v = self.it.nth_back(n);
+    if v.is_some() {
+      tick(&self.left);
+    }
+    v
+  }
+  fn rfold<B, F: FnMut(B, I::Item) -> B>(self, init: B, mut f: F) -> B {
+    let left = self.left;
+    self.it.rfold(init, move |b, x| {
+      tick(&left);
+      f(b, x)
+    })
+  }
+  fn rfind<P: FnMut(&I::Item) -> bool>(&mut self, mut p: P) -> Option<I::Item> {
+    let left = self.left.clone();
+    self.it.rfind(move |x| {
+      tick(&left);
+      p(x)
+    })
+  }
+}
+impl<I: ExactSizeIterator> ExactSizeIterator for Meter<I> {
+  fn len(&self) -> usize {
+    self.it.len()
+  }
+}
+
+/// `count()` / `last()` of an iterator that never ends cannot be interrupted from inside: a watchdog
+/// reports the case in progress as the failing input and ends the run.
+static IN_PROGRESS: std::sync::Mutex<Option<(std::time::Instant, String)>> = std::sync::Mutex::new(None);
+const HANG_SECONDS: u64 = 120;
+fn start_watchdog() {
+  std::thread::spawn(|| loop {
+    std::thread::sleep(std::time::Duration::from_millis(500));
+    let hung = match IN_PROGRESS.lock() {
+      Ok(g) => g.as_ref().filter(|(t, _)| t.elapsed().as_secs() >= HANG_SECONDS).map(|(_, what)| what.clone()),
+      Err(_) => None,
+    };
+    if let Some(what) = hung {
+      use std::io::Write;
+      let so = std::io::stdout();
+      let mut h = so.lock();
+      let _ = writeln!(h, "\n{} call does not return after {} s", what, HANG_SECONDS);
+      let _ = h.flush();
+      std::process::exit(0);
+    }
+  });
+}
+fn in_progress(what: Option<String>) {
+  if let Ok(mut g) = IN_PROGRESS.lock() {
+    *g = what.map(|w| (std::time::Instant::now(), w));
+  }
+}
+
+// ------------------------------------------------------------------------------------------------
 // programs
 
 #[derive(Clone, Copy, Debug, PartialEq)]
@@ -595,13 +757,20 @@ pub fn boundary_progs(n: usize) -> Vec<Vec<Op>> {
 // running a program on the real iterator and on the reference
 
 /// run on the crate's iterator (a panic becomes the outcome of the op in progress)
-fn run_real(f: impl FnOnce(&mut Vec<String>)) -> Vec<String> {
+fn run_real(what: String, f: impl FnOnce(&mut Vec<String>)) -> Vec<String> {
   let mut out: Vec<String> = Vec::new();
+  in_progress(Some(what));
   let r = guard(|| f(&mut out));
+  in_progress(None);
   if r.is_none() {
     out.push("PANIC".into());
   }
   out
+}
+
+/// the line the watchdog prints if the crate-side run of this program never returns
+fn hang(pred: &str, src: &str, head: &str, prog: &[Op]) -> String {
+  format!("S {} FAIL iterprog/{}/hang | src={} {} prog={}", pred, src, src, head, show_prog(prog))
 }
 
 struct Verdict {
@@ -711,7 +880,7 @@ fn steps_case(ctx: &mut Ctx, a: f64, b: f64, n: usize, random: usize, boundary: 
   let pts: Vec<f64> = (0..n).map(|i| s.value(i)).collect();
   let head = format!("a={:e} b={:e} n={}", a, b, n);
   for prog in progs_for(ctx, n, random, boundary) {
-    let got = run_real(|o| exec_full::<_, L2>(Steps(a, b, n).into_iter(), &prog, o));
+    let got = run_real(hang("C14.iterprog", "steps", &head, &prog), |o| exec_full::<_, L2>(Meter::new(Steps(a, b, n).into_iter(), n), &prog, o));
     let mut want = Vec::new();
     exec_full::<_, L2>(pts.clone().into_iter(), &prog, &mut want);
     emit(ctx, "C14.iterprog", "steps", &head, &prog, &got, &want, &[a.abs().max(b.abs())]);
@@ -793,7 +962,7 @@ fn piece1_case(ctx: &mut Ctx, a: f64, b: f64, n: usize, random: usize) {
     }
   };
   for prog in progs_for(ctx, m, random, m <= 3) {
-    let got = run_real(|o| exec_full::<_, L2>(Producer::into_iter(piece1(Steps(a, b, n), &path)), &prog, o));
+    let got = run_real(hang("C15.iterprog", "producer1", &head, &prog), |o| exec_full::<_, L2>(Meter::new(Producer::into_iter(piece1(Steps(a, b, n), &path)), m), &prog, o));
     let mut want = Vec::new();
     exec_full::<_, L2>(pts.clone().into_iter(), &prog, &mut want);
     emit(ctx, "C15.iterprog", "producer1", &head, &prog, &got, &want, &[a.abs().max(b.abs())]);
@@ -836,9 +1005,9 @@ fn steps2d_case(ctx: &mut Ctx, g: G, random: usize, boundary: bool) {
   let head = ghead(&g);
   for (j, prog) in progs_for(ctx, n, random, boundary).into_iter().enumerate() {
     let got = if j % 2 == 0 {
-      run_real(|o| exec_full::<_, L2>(Steps2D(g.0, g.1).into_iter(), &prog, o))
+      run_real(hang("C14.iterprog", "steps2d", &head, &prog), |o| exec_full::<_, L2>(Meter::new(Steps2D(g.0, g.1).into_iter(), n), &prog, o))
     } else {
-      run_real(|o| exec_full::<_, L2>(Iterator2D::new(Steps2D::new(g.0, g.1)), &prog, o))
+      run_real(hang("C14.iterprog", "steps2d", &head, &prog), |o| exec_full::<_, L2>(Meter::new(Iterator2D::new(Steps2D::new(g.0, g.1)), n), &prog, o))
     };
     let mut want = Vec::new();
     exec_full::<_, L2>(pts.clone().into_iter(), &prog, &mut want);
@@ -849,7 +1018,7 @@ fn steps2d_case(ctx: &mut Ctx, g: G, random: usize, boundary: bool) {
     let f = ctx.rng.below(n + 1).min(3);
     let bk = ctx.rng.below(n + 1).min(2);
     let m = ctx.rng.below(2 * n + 3);
-    let got = run_real(|o| {
+    let got = run_real(hang("C14.iterprog", "steps2d-cycle", &head, &[Op::Collect]), |o| {
       let mut it = Steps2D(g.0, g.1).into_iter();
       for _ in 0..f {
         it.next();
@@ -895,7 +1064,7 @@ fn partition_case(ctx: &mut Ctx, g: G, random: usize, boundary: bool) {
   let pts: Vec<(f64, f64)> = (lo..hi).map(|i| s.value(i)).collect();
   let head = format!("{} lo={} hi={}", ghead(&g), lo, hi);
   for prog in progs_for(ctx, m, random, boundary && m <= 4) {
-    let got = run_real(|o| exec_full::<_, L2>(Iterator2D::new_partition(Steps2D(g.0, g.1), lo, hi), &prog, o));
+    let got = run_real(hang("C15.iterprog", "partition", &head, &prog), |o| exec_full::<_, L2>(Meter::new(Iterator2D::new_partition(Steps2D(g.0, g.1), lo, hi), m), &prog, o));
     let mut want = Vec::new();
     exec_full::<_, L2>(pts.clone().into_iter(), &prog, &mut want);
     emit(ctx, "C15.iterprog", "partition", &head, &prog, &got, &want, &gscales(&g));
@@ -918,7 +1087,7 @@ fn partition_case(ctx: &mut Ctx, g: G, random: usize, boundary: bool) {
     Producer::into_iter(p)
   };
   for prog in progs_for(ctx, phi - plo, random, false) {
-    let got = run_real(|o| exec_full::<_, L2>(piece(&path), &prog, o));
+    let got = run_real(hang("C15.iterprog", "producer2", &phead, &prog), |o| exec_full::<_, L2>(Meter::new(piece(&path), phi - plo), &prog, o));
     let mut want = Vec::new();
     exec_full::<_, L2>(ppts.clone().into_iter(), &prog, &mut want);
     emit(ctx, "C15.iterprog", "producer2", &phead, &prog, &got, &want, &gscales(&g));
@@ -947,13 +1116,13 @@ fn combo_case(ctx: &mut Ctx, random: usize) {
   let head = format!("a={:e} b={:e} n={} c={:e} d={:e} m={} pre={}/{}/{}/{}", a, b, n, c, d, m, pre[0], pre[1], pre[2], pre[3]);
   for _ in 0..random {
     let prog = gen_prog(&mut ctx.rng, n + m);
-    let got = run_real(|o| exec_dei::<_, L1>(eat(Steps(a, b, n).into_iter(), pre[0], pre[1]).chain(eat(Steps(c, d, m).into_iter(), pre[2], pre[3])), &prog, o));
+    let got = run_real(hang("C14.iterprog", "chain", &head, &prog), |o| exec_dei::<_, L1>(eat(Meter::new(Steps(a, b, n).into_iter(), n), pre[0], pre[1]).chain(eat(Meter::new(Steps(c, d, m).into_iter(), m), pre[2], pre[3])), &prog, o));
     let mut want = Vec::new();
     exec_dei::<_, L1>(eat(pa.clone().into_iter(), pre[0], pre[1]).chain(eat(pb.clone().into_iter(), pre[2], pre[3])), &prog, &mut want);
     emit(ctx, "C14.iterprog", "chain", &head, &prog, &got, &want, &[sab.max(scd)]);
 
     let prog = gen_prog(&mut ctx.rng, n.min(m));
-    let got = run_real(|o| exec_full::<_, L1>(eat(Steps(a, b, n).into_iter(), pre[0], pre[1]).zip(eat(Steps(c, d, m).into_iter(), pre[2], pre[3])), &prog, o));
+    let got = run_real(hang("C14.iterprog", "zip", &head, &prog), |o| exec_full::<_, L1>(eat(Meter::new(Steps(a, b, n).into_iter(), n), pre[0], pre[1]).zip(eat(Meter::new(Steps(c, d, m).into_iter(), m), pre[2], pre[3])), &prog, o));
     let mut want = Vec::new();
     exec_full::<_, L1>(eat(pa.clone().into_iter(), pre[0], pre[1]).zip(eat(pb.clone().into_iter(), pre[2], pre[3])), &prog, &mut want);
     emit(ctx, "C14.iterprog", "zip", &head, &prog, &got, &want, &[sab, scd]);
@@ -964,7 +1133,7 @@ fn combo_case(ctx: &mut Ctx, random: usize) {
   let p1: Vec<f64> = (0..n.max(1)).map(|i| Steps(a, b, n.max(1)).value(i)).collect();
   for _ in 0..random {
     let prog = gen_prog(&mut ctx.rng, n.max(1));
-    let got = run_real(|o| exec_full::<_, L1>(Steps2D(g.0, g.1).into_iter().zip(Steps(a, b, n.max(1)).into_iter()), &prog, o));
+    let got = run_real(hang("C14.iterprog", "zip2d", &ghead(&g), &prog), |o| exec_full::<_, L1>(Meter::new(Steps2D(g.0, g.1).into_iter(), p2.len()).zip(Meter::new(Steps(a, b, n.max(1)).into_iter(), n.max(1))), &prog, o));
     let mut want = Vec::new();
     exec_full::<_, L1>(p2.clone().into_iter().zip(p1.clone().into_iter()), &prog, &mut want);
     emit(ctx, "C14.iterprog", "zip2d", &format!("{} with a={:e} b={:e} n={}", ghead(&g), a, b, n.max(1)), &prog, &got, &want, &[sab, scd, sab]);
@@ -1001,11 +1170,11 @@ fn si_case(ctx: &mut Ctx, random: usize) {
   }
   for (j, prog) in progs.iter().enumerate() {
     let (src, got, pts) = match j % 5 {
-      0 => ("si-frequency", run_real(|o| exec_fwd::<_, L1>(fs.into_signal_idler_iterator(), prog, o)), &e_fs),
-      1 => ("si-wavelength", run_real(|o| exec_fwd::<_, L1>(ws.into_signal_idler_iterator(), prog, o)), &e_ws),
-      2 => ("si-sumdiff", run_real(|o| exec_fwd::<_, L1>(sd.into_signal_idler_iterator(), prog, o)), &e_sd),
-      3 => ("si-flat-wavelength", run_real(|o| exec_fwd::<_, L1>(SignalIdlerWavelengthArray(wl_flat.clone()).into_signal_idler_iterator(), prog, o)), &e_ws),
-      _ => ("si-flat-frequency", run_real(|o| exec_fwd::<_, L1>(SignalIdlerFrequencyArray(fr_flat.clone()).into_signal_idler_iterator(), prog, o)), &e_fs),
+      0 => ("si-frequency", run_real(hang("C14.iterprog", "si-frequency", &head, prog), |o| exec_fwd::<_, L1>(Meter::new(fs.into_signal_idler_iterator(), n), prog, o)), &e_fs),
+      1 => ("si-wavelength", run_real(hang("C14.iterprog", "si-wavelength", &head, prog), |o| exec_fwd::<_, L1>(Meter::new(ws.into_signal_idler_iterator(), n), prog, o)), &e_ws),
+      2 => ("si-sumdiff", run_real(hang("C14.iterprog", "si-sumdiff", &head, prog), |o| exec_fwd::<_, L1>(Meter::new(sd.into_signal_idler_iterator(), n), prog, o)), &e_sd),
+      3 => ("si-flat-wavelength", run_real(hang("C14.iterprog", "si-flat-wavelength", &head, prog), |o| exec_fwd::<_, L1>(Meter::new(SignalIdlerWavelengthArray(wl_flat.clone()).into_signal_idler_iterator(), n), prog, o)), &e_ws),
+      _ => ("si-flat-frequency", run_real(hang("C14.iterprog", "si-flat-frequency", &head, prog), |o| exec_fwd::<_, L1>(Meter::new(SignalIdlerFrequencyArray(fr_flat.clone()).into_signal_idler_iterator(), n), prog, o)), &e_fs),
     };
     let mut want = Vec::new();
     exec_fwd::<_, L1>(pts.clone().into_iter(), prog, &mut want);
@@ -1021,6 +1190,7 @@ fn gen_grid(r: &mut Rng, max: usize) -> G {
 }
 
 pub fn run(ctx: &mut Ctx) {
+  start_watchdog();
   let quick = !ctx.thorough;
   // ---- every boundary program of the small ranges
   let nmax = if quick { 6 } else { 9 };
